@@ -31,7 +31,7 @@ def walk(j, path=""):
 def run(ctx):
     ctx.rule = ("accepted messages of all 30 types: shipped-scenario seeds; messages generated from the independent layout specification with every option "
                 "letter, optional fields in/out and 0-3 repetitions; content mutants (currencies of 0/2/3 decimals, amounts with 0-3 decimals, dates over "
-                "the century window 1950-2049 incl. 29 February, 13C/13D/11S values, block 3 and 5 present/absent, input and output block 2); for each: "
+                "the century window 1950-2049 incl. 29 February, 13C/13D/11S values, block 3 and 5 present/absent, input and output block 2, logical terminal addresses with and without a branch code in blocks 1 and 2); for each: "
                 "value -> JSON -> value (serde_json::Value and string), MT text of the value read back, plugin parse -> publish; "
                 "and every accepted field value of the C05 stream through fparse's JSON round trip; distinct = (type, set of JSON paths)")
     standard_front(ctx, __import__("c08"))
@@ -42,8 +42,9 @@ def run(ctx):
     seeds = mtgen.load_seeds(limit=None if full else 4)
     msgs = []   # (type code, full text, origin)
     H1 = "{1:F01BANKDEFFAXXX0000000000}"
-    def wrap(c, body, b2=None, b3="", b5=""):
-        return H1 + (b2 or "{2:I%sBANKUS33XXXXN}" % c) + b3 + "{4:\n" + body.strip("\n") + "\n-}" + b5
+    LTS = ("DEUTDEFF001A", "BNPAFRPPA123", "BANKDEFFXXXX", "BANKDEFFBXXX", "BANKDE22X001", "BANKDEFFA1XX", "BANKDEFFAXX1", "BANKDEFF0XXX")
+    def wrap(c, body, b2=None, b3="", b5="", h1=None):
+        return (h1 or H1) + (b2 or "{2:I%sBANKUS33XXXXN}" % c) + b3 + "{4:\n" + body.strip("\n") + "\n-}" + b5
     for c, lst in seeds.items():
         for name, text in lst:
             msgs.append((c, text, "seed"))
@@ -76,6 +77,15 @@ def run(ctx):
             msgs.append((c, wrap(c, body_s, None, "{3:{103:EBA}{113:URGT}{108:MUR123}{119:STP}{121:7d1c3a2e-9c3b-4f5a-8d2e-1b2c3d4e5f60}}", "{5:{CHK:123456789ABC}{TNG:}}"), "b3-b5"))
             msgs.append((c, wrap(c, body_s, None, "{3:{108:}}", "{5:{MAC:00000000}{CHK:123456789ABC}{PDE:}}"), "b3-empty-108"))
             msgs.append((c, wrap(c, body_s, None, "{3:}", "{5:}"), "b3-b5-empty"))
+            if name == lst[0][0]:
+                # logical terminal addresses of every shape in block 1, block 2 input and the MIR of block 2 output: 8-character BIC
+                # with padding, 11-character BIC with a branch code, terminal letter X, non-alphanumeric filler (the JSON codecs of the
+                # headers are hand-written and keep the derived BIC beside the padded address)
+                for lt in LTS:
+                    msgs.append((c, wrap(c, body_s, h1="{1:F01%s0000123456}" % lt), "hdr-b1"))
+                    msgs.append((c, wrap(c, body_s, "{2:I%s%sN}" % (c, lt)), "hdr-b2in"))
+                    msgs.append((c, wrap(c, body_s, "{2:O%s1200260930%s00000000002609301201N}" % (c, lt)), "hdr-b2out"))
+                msgs.append((c, wrap(c, body_s, "{2:I%sBNPAFRPPA123U3003}" % c, h1="{1:A21DEUTDEFF001A9999999999}"), "hdr-b1"))
     n = 40 if full else 8
     for c in mtgen.SUPPORTED:
         for k in range(n):
